@@ -306,3 +306,16 @@ def finish(ctx, build_res, prop_files, obligations, discharged, extra_cov=None, 
     for l in lines:
         log(l)
     return rc
+
+
+def kind_indices():
+    """token class name -> index in the generated `all_kinds` (read from coq/gen/LexTables.v)"""
+    txt = open(os.path.join(COQ, "gen", "LexTables.v")).read()
+    m = re.search(r"Definition all_kinds : list kind := \[(.*?)\]\.", txt, re.S)
+    names = [x.strip() for x in m.group(1).split(";")]
+    out = {}
+    for i, n in enumerate(names):
+        n = n[2:]
+        k = len(n) - len(n.lstrip("u")) if n[:1] == "u" and n.lstrip("u")[:1].isupper() else 0
+        out["_" * k + n[k:]] = i
+    return out
